@@ -50,6 +50,9 @@ impl<'a> Read for ShortReader<'a> {
         const STEPS: [usize; 7] = [1, 2, 3, 5, 7, 4, 6];
         let k = STEPS[self.tick % STEPS.len()];
         self.tick += 1;
+        // Every eleventh call is interrupted before anything was read (EINTR on a pipe or a socket): by the contract of
+        // `Read` that is not a failure, the caller retries.
+        if self.tick % 11 == 5 { return Err(std::io::Error::new(std::io::ErrorKind::Interrupted, "vmon: interrupted read")); }
         let n = std::cmp::min(std::cmp::min(buf.len(), k), self.data.len() - self.pos);
         buf[..n].copy_from_slice(&self.data[self.pos..self.pos + n]);
         self.pos += n;
@@ -299,7 +302,8 @@ pub fn forty_mbit(rng: &mut Rng, words: usize) -> (BitVector, Vec<usize>, Vec<us
 
 fn mebibytes(ctx: &mut Ctx) {
     if cfg!(miri) || !ctx.mine(0) { return; }
-    for (k, items) in [131_072usize, 131_071, 131_073, 262_144, 400_000].iter().enumerate() {
+    // Around 1 and 2 MiB, and beyond 8 and 16 MiB (a loader that reads large bodies block by block has several blocks then).
+    for (k, items) in [131_072usize, 131_071, 131_073, 262_144, 400_000, 1_048_583, 2_200_000].iter().enumerate() {
         if !ctx.begin_case() { continue; }
         let v: Vec<u64> = (0..*items as u64).map(|i| i.wrapping_mul(0x9E37_79B9_7F4A_7C15) ^ (i >> 3)).collect();
         roundtrip(ctx, "vec_u64_mib", &v, None, &|| format!("Vec<u64> of {} items ({} bytes)", items, items * 8));
